@@ -419,6 +419,11 @@ class Interp:
             return self.construct(f, list(args), kwargs)
         if isinstance(f, (staticmethod,)):
             return self.call(f.__func__, args, kwargs)
+        # --- a callable instance of a repository class: its __call__ is interpreted
+        if not isinstance(f, (types.BuiltinFunctionType, types.MethodDescriptorType, types.ModuleType)):
+            cm = _static_lookup(type(f), '__call__')
+            if cm is not None and isinstance(cm[0], types.FunctionType) and _is_repo_function(cm[0]):
+                return self.call_function_object(cm[0], [f] + list(args), kwargs, cm[1], bound_self=f)
         # --- builtins, method descriptors, other callables
         return self.call_native(f, list(args), kwargs)
 
